@@ -28,9 +28,29 @@ def main():
     for a in sys.argv[1:]:
         if a.startswith('--runs='):
             runs = a.split('=')[1]
-    if sh(['git', '-C', REPO, 'status', '--porcelain']).stdout.strip():
+    scratch = '--scratch' in sys.argv
+    repo = REPO
+    if scratch:
+        # work on a scratch worktree of /repo (removed afterwards) and point the checks at it
+        # with VERIF_REPO, so that other jobs using /repo itself are not disturbed
+        import tempfile
+        repo = tempfile.mkdtemp(prefix='verif-seeded-wt-')
+        os.rmdir(repo)
+        r = sh(['git', '-C', REPO, 'worktree', 'add', '-q', '--detach', repo, 'HEAD'])
+        if r.returncode:
+            print(r.stdout)
+            return 2
+    elif sh(['git', '-C', REPO, 'status', '--porcelain']).stdout.strip():
         print('refusing: /repo has uncommitted changes')
         return 2
+    try:
+        return run_all(args, runs, repo, scratch)
+    finally:
+        if scratch:
+            sh(['git', '-C', REPO, 'worktree', 'remove', '--force', repo])
+
+
+def run_all(args, runs, repo, scratch):
     dirs = sorted(glob.glob(os.path.join(VERIF, 'seeded', '*')))
     if args:
         dirs = [d for d in dirs if os.path.basename(d) in args]
@@ -41,7 +61,7 @@ def main():
             continue
         prop = meta['property']
         patch = os.path.join(d, 'patch.diff')
-        r = sh(['git', '-C', REPO, 'apply', patch])
+        r = sh(['git', '-C', repo, 'apply', patch])
         if r.returncode != 0:
             print(os.path.basename(d), 'patch does not apply:', r.stdout[:300])
             table.append((os.path.basename(d), prop, 'PATCH-FAILS', 0, ''))
@@ -51,7 +71,10 @@ def main():
             cmd = [os.path.join(VERIF, 'check'), prop, '--tier', 'quick', '--no-evidence']
             if runs:
                 cmd += ['--runs', runs]
-            r = sh(cmd, cwd=VERIF)
+            env = dict(os.environ)
+            if scratch:
+                env['VERIF_REPO'] = repo
+            r = sh(cmd, cwd=VERIF, env=env)
             wall = time.time() - t0
             viol = re.findall(r'check=(\S+)', r.stdout)
             detected = r.returncode == 1 and 'VIOLATION property=%s' % prop in r.stdout
@@ -66,7 +89,7 @@ def main():
             print(table[-1])
             sys.stdout.flush()
         finally:
-            sh(['git', '-C', REPO, 'checkout', '--', '.'])
+            sh(['git', '-C', repo, 'checkout', '--', '.'])
     print()
     for row in table:
         print('%-28s %-4s %-8s %6ss  %s' % row)
